@@ -330,6 +330,11 @@ class Matrix(object):
                     raise PyrtlError('Rows must be of type int or slice, '
                                      'instead "%s" was passed of type %s' %
                                      (str(rows), type(rows)))
+                if rows < 0:  # a negative index counts from the end, as in __getitem__
+                    rows = self.rows - abs(rows)
+                    if rows < 0:
+                        raise PyrtlError("Invalid bounds for rows. Max rows: %s, got: %s" % (
+                            str(self.rows), str(rows)))
                 rows = slice(rows, rows + 1, 1)
 
             if not isinstance(columns, slice):
@@ -337,6 +342,11 @@ class Matrix(object):
                     raise PyrtlError('Columns must be of type int or slice, '
                                      'instead "%s" was passed of type %s' %
                                      (str(columns), type(columns)))
+                if columns < 0:
+                    columns = self.columns - abs(columns)
+                    if columns < 0:
+                        raise PyrtlError("Invalid bounds for columns. Max columns: %s, got: %s" % (
+                            str(self.columns), str(columns)))
                 columns = slice(columns, columns + 1, 1)
 
             if rows.start is None:
